@@ -19,6 +19,38 @@ func SortedKeys[M ~map[K]V, K cmp.Ordered, V any](m M) []K {
 	return keys
 }
 
+// Keys without an order (pointers, interfaces, structs): the rewriter notes
+// every key at insertion (m[NoteKey(k)] = v) and ranges over StableKeys(m),
+// i.e. in insertion order - one canonical order instead of Go's random one,
+// and the same one in every execution of a schedule. A key that reached the
+// map some other way is numbered when a range first meets it.
+var keyIDs = map[interface{}]int{}
+
+func init() { OnReset(func() { keyIDs = map[interface{}]int{} }) }
+
+// NoteKey numbers k (first come, first numbered) and returns it.
+func NoteKey[K comparable](k K) K {
+	if _, ok := keyIDs[k]; !ok {
+		keyIDs[k] = len(keyIDs) + 1
+	}
+	return k
+}
+
+// StableKeys returns the keys of m in the order in which they were noted.
+func StableKeys[M ~map[K]V, K comparable, V any](m M) []K {
+	keys := make([]K, 0, len(m))
+	for k := range m {
+		keys = append(keys, k)
+	}
+	if len(keys) > 1 {
+		for _, k := range keys {
+			NoteKey(k)
+		}
+		sort.Slice(keys, func(i, j int) bool { return keyIDs[keys[i]] < keyIDs[keys[j]] })
+	}
+	return keys
+}
+
 var fine bool
 
 func init() { OnReset(func() { fine = false }) }
